@@ -23,7 +23,14 @@ def do_case(ctx, inp):
     lst = [fix(i) for i in inp["lst"]]
     vec = inp["vec"]
     dfl = inp["dflt"]
-    vs = [puan.variable(i, tuple(b)) for i, b in zip(ids, bnds)]
+    def mkvar(i, b, dt):
+        # a variable may be DECLARED with a dtype as well; what it is (a boolean or an integer column) is what its bounds say
+        if dt is None or (dt == "bool" and tuple(b) != (0, 1)): return puan.variable(i, tuple(b))
+        if dt == "bool-with-Bounds": return puan.variable(i, puan.Bounds(b[0], b[1]), dtype="bool")
+        if dt == "enum-int": return puan.variable(i, tuple(b), dtype=puan.Dtype.INT)
+        return puan.variable(i, tuple(b), dtype=dt)
+    dts = inp.get("dtypes") or [None] * len(ids)
+    vs = [mkvar(i, b, dt) for i, b, dt in zip(ids, bnds, dts)]
     n = len(vs)
     va = pnd.variable_ndarray(np.zeros(n, dtype=np.int64), variables=vs)
     unknown = any(k not in ids for k in d)
@@ -151,6 +158,10 @@ def run(ctx):
         dfl = rng.choice(["lower", "nan", "upper", {"const": rng.randint(-3, 3)}])
         row = [rng.randint(-5, 5) for _ in range(k + 1)]
         case = {"ids": ids, "bnds": bnds, "dict": dct, "lst": lst, "vec": vec, "dflt": dfl, "row": row}
+        if rng.random() < 0.25:
+            case["dtypes"] = [(rng.choice(["int", "enum-int", "bool"]) if tuple(b) == (0, 1) else rng.choice(["int", "bool-with-Bounds", "enum-int"]))
+                              if rng.random() < 0.5 else None for b in bnds]
+            ctx.tags["variables-declared-with-a-dtype"] += 1
         do_case(ctx, case)
         if rng.random() < 0.35:
             # a twin handled right after, in the same process: same ids in the same order, bounds replaced by bounds that
